@@ -37,6 +37,25 @@ fn check_inner(text: &str, labels: &[B], k: usize, tag_idx: &[usize]) -> Option<
         Ok(p) => p,
         Err(e) => return Some(format!("written text {:?} rejected: {}", buf, e)),
     };
+    // the in-place parser on a reused object must agree with the constructor
+    // (a fresh copy of a fully tagged, longer sentence per case, so every case is self-contained and replayable)
+    let stale = {
+        let mut r = Sentence::from_tokenized("a/A1/A2/A3 b/B1/B2/B3 c/C1/C2/C3 d/D1/D2/D3 e/E1/E2/E3 f/F1/F2/F3").unwrap();
+        let before = format!("{:?} n_tags={}", r.as_raw_text(), r.n_tags());
+        match r.update_partial_annotation(&buf) {
+            Err(e) => Some(format!("update_partial_annotation rejects the written text {:?} (object held %s): {}", buf, e).replace("%s", &before)),
+            Ok(()) => {
+                if r.as_raw_text() != p.as_raw_text() || r.boundaries() != p.boundaries() || r.tags() != p.tags() || r.n_tags() != p.n_tags() {
+                    Some(format!("update_partial_annotation into a reused object (held {}) differs from from_partial_annotation on {:?}: tags {:?} vs {:?}", before, buf, r.tags(), p.tags()))
+                } else {
+                    None
+                }
+            }
+        }
+    };
+    if stale.is_some() {
+        return stale;
+    }
     if p.as_raw_text() != s.as_raw_text() {
         return Some(format!("raw text differs: written {:?} parsed {:?}", buf, p.as_raw_text()));
     }
